@@ -166,7 +166,8 @@ Definition model_ok_gen (V : variant) (c : c16case) : bool :=
    5 schema metadata differ; 6 a field merge rule is violated; 7 a request panicked;
    8 fieldtimes differ; 9 the JSON schema in force differs.  8 and 9 are reported only when
    nothing else fails (they are the two defects repaired by C16-7/8-fix.diff); 10 a version read in
-   two phases answers differently in a history with a configuration hazard (repair C16-9) *)
+   two phases answers differently in a history with a configuration hazard (repair C16-9); 11 the
+   read paths differ in a history where a restart loses the head of master (datastore defect) *)
 Definition req_class (r : rreq) : nat :=
   match r with
   | RKeys | RKeyRange _ _ | RHeadKey _ => 1
@@ -268,38 +269,44 @@ Definition all_ops (c : c16case) : list op :=
   map ob_op (c_hist c) ++ [OpCommit; OpNewVersion] ++ map ob_op (c_tail c) ++ flat_map (fun p => map ob_op (fst p)) (c_phases c).
 (* [br]: length of the branch chain, whether its head is committed, the master version it left *)
 Fixpoint hazard_walk (ops : list op) (cfg : config) (mlen : nat) (mlocked : bool)
-         (br : option (nat * bool * nat)) : bool :=
+         (br : option (nat * bool * nat)) (lost : bool) : bool :=
   match ops with
   | [] => false
   | o :: r =>
       match o with
-      | OpSetConfig c => hazard_walk r c mlen mlocked br
+      | OpSetConfig c => hazard_walk r c mlen mlocked br lost
       | OpReload =>
-          (cfg_branch cfg && match br with None => true | Some _ => false end)
-          || existsb (fun ref => match ref with
-                                 | VM a => negb (Nat.ltb a mlen || (Nat.eqb a mlen && mlocked))
-                                 | VB i => match br with
-                                           | Some (bl, bk, _) => negb (Nat.ltb i bl || (Nat.eqb i bl && bk))
-                                           | None => false end
-                                 end) (cfg_static cfg)
-          (* the committed leaf of master has a child on the branch only: after the restart the
-             repo manager no longer finds the head of master (reported to C03/C07), and
-             initMemoryDB registers an empty db for it *)
-          || match br with Some (_, _, from) => Nat.eqb from mlen | None => false end
-          || hazard_walk r cfg mlen mlocked br
-      | OpCommit => hazard_walk r cfg mlen true br
-      | OpNewVersion => if mlocked then hazard_walk r cfg (S mlen) false br else hazard_walk r cfg mlen mlocked br
-      | OpBranch from => hazard_walk r cfg mlen mlocked (match br with None => Some (O, false, from) | b => b end)
-      | OpOnBranch OpCommit => hazard_walk r cfg mlen mlocked (option_map (fun p : nat * bool * nat => (fst (fst p), true, snd p)) br)
+          (if lost
+           then
+             (* the committed leaf of master has a child on the branch only: after the restart the
+                repo manager no longer finds the head of master (datastore defect, C03/C07);
+                neuronjson's Initialize then loads neither the metadata nor the HEAD db of master *)
+             match br with Some (_, _, from) => Nat.eqb from mlen | None => false end
+           else
+             (cfg_branch cfg && match br with None => true | Some _ => false end)
+             || existsb (fun ref => match ref with
+                                    | VM a => negb (Nat.ltb a mlen || (Nat.eqb a mlen && mlocked))
+                                    | VB i => match br with
+                                              | Some (bl, bk, _) => negb (Nat.ltb i bl || (Nat.eqb i bl && bk))
+                                              | None => false end
+                                    end) (cfg_static cfg))
+          || hazard_walk r cfg mlen mlocked br lost
+      | OpCommit => hazard_walk r cfg mlen true br lost
+      | OpNewVersion => if mlocked then hazard_walk r cfg (S mlen) false br lost else hazard_walk r cfg mlen mlocked br lost
+      | OpBranch from => hazard_walk r cfg mlen mlocked (match br with None => Some (O, false, from) | b => b end) lost
+      | OpOnBranch OpCommit => hazard_walk r cfg mlen mlocked (option_map (fun p : nat * bool * nat => (fst (fst p), true, snd p)) br) lost
       | OpOnBranch OpNewVersion =>
           hazard_walk r cfg mlen mlocked
-            (option_map (fun p : nat * bool * nat => if snd (fst p) then (S (fst (fst p)), false, snd p) else p) br)
-      | _ => hazard_walk r cfg mlen mlocked br
+            (option_map (fun p : nat * bool * nat => if snd (fst p) then (S (fst (fst p)), false, snd p) else p) br) lost
+      | _ => hazard_walk r cfg mlen mlocked br lost
       end
   end.
 (* (an approximation of the history that is exact for accepted requests; the driver's hazard
    cases contain no rejected commit / newversion / branch) *)
-Definition init_hazard (c : c16case) : bool := hazard_walk (all_ops c) no_cfg O false None.
+Definition lost_head_hazard (c : c16case) : bool := hazard_walk (all_ops c) no_cfg O false None true.
+Definition config_hazard (c : c16case) : bool := hazard_walk (all_ops c) no_cfg O false None false.
+Definition init_hazard (c : c16case) : bool := lost_head_hazard c || config_hazard c.
+Definition hazard_class (c : c16case) : nat := if lost_head_hazard c then 11%nat else 10%nat.
 
 Definition spec_class (c : c16case) : nat :=
   if existsb (fun ob => match ob_cls ob with OPanic => true | _ => false end)
@@ -309,10 +316,10 @@ Definition spec_class (c : c16case) : nat :=
   else if negb (rules_walk [] (c_hist c)) then 6%nat
   else
     match find (fun rr => negb (same_answers rr) && Nat.ltb (req_class (fst rr)) 8) (c_reads c) with
-    | Some rr => if init_hazard c then 10%nat else req_class (fst rr)
+    | Some rr => if init_hazard c then hazard_class c else req_class (fst rr)
     | None =>
       match phases_differ c with
-      | Some r => if init_hazard c then 10%nat else req_class r
+      | Some r => if init_hazard c then hazard_class c else req_class r
       | None =>
         match find (fun rr => negb (same_answers rr)) (c_reads c) with
         | Some rr => req_class (fst rr)
